@@ -173,3 +173,107 @@ Proof.
   destruct atyp_distinct_lemma as (N1 & N2 & N3).
   destruct (split_encode_lemma a payload Hd N1 N2 N3) as [_ R]. rewrite R, Da, Dial. reflexivity.
 Qed.
+
+(* --- C15: the status names the real outcome; the counters never exceed the wire -------------- *)
+(* the outcome of a connection, stated independently of the event list *)
+Inductive outcome_class :=
+| OAuthFailed (s : N)          (* authentication refused with this status *)
+| OBadAddress                  (* authenticated; the address header is missing, truncated or of an unknown type *)
+| ODialFailed (s : N)          (* authenticated, address read; the policy or the connect failed with this status *)
+| ORelayBroken                 (* relaying started; a later chunk from the client failed authentication *)
+| OCompleted.                  (* relayed to the end of both streams *)
+Definition classify (e : env) (st : astate) (ci : conn_in) : option outcome_class :=
+  match snd (authenticate e st (ci_ip ci) (ci_bytes ci)) with
+  | Panic => None
+  | Ok (AuthErr s _) => Some (OAuthFailed (status_code s))
+  | Ok (AuthOk _ el _) =>
+      let '(pt, fin) := decode_stream e (e_key (snd el)) (ci_bytes ci) in
+      match read_addr pt with
+      | RBadType | RNeedMore => Some OBadAddress
+      | RAddr ab _ =>
+          match decode_addr ab with
+          | None => Some OBadAddress
+          | Some a => match dial ci a with
+                      | inr s => Some (ODialFailed s)
+                      | inl _ => match fin with DAuthFail => Some ORelayBroken | _ => Some OCompleted end
+                      end
+          end
+      end
+  end.
+Definition status_of_class (c : outcome_class) : N :=
+  match c with
+  | OAuthFailed s => s | OBadAddress => st_read_address | ODialFailed s => s
+  | ORelayBroken => st_relay_client | OCompleted => st_ok
+  end.
+
+Ltac closed_shape :=
+  match goal with
+  | |- exists pre cp pt tp w, ?L = _ => exists (removelast (removelast L)); do 4 eexists; reflexivity
+  end.
+
+Lemma status_names_outcome_lemma e st ci st' evs :
+  handle e st ci = (st', Ok evs) ->
+  exists c, classify e st ci = Some c /\
+    exists pre cp pt tp w, evs = pre ++ [EClosed (status_of_class c) cp pt tp; EClose w].
+Proof.
+  unfold handle, classify. destruct (authenticate e st (ci_ip ci) (ci_bytes ci)) as [st1 res]. cbn [snd].
+  destruct res as [[id el salt|s id]|]; [| |intros H; inversion H].
+  - unfold after_auth. destruct (decode_stream e (e_key (snd el)) (ci_bytes ci)) as [p f].
+    destruct (read_addr p) as [ab payload| |].
+    + destruct (decode_addr ab) as [a|].
+      * destruct (dial ci a) as [i|s].
+        -- destruct f; intros H; injection H as <- <-;
+             (eexists; split; [reflexivity|]; cbn [status_of_class]; closed_shape).
+        -- intros H; injection H as <- <-. eexists; split; [reflexivity|]. cbn [status_of_class]. closed_shape.
+      * intros H; injection H as <- <-. eexists; split; [reflexivity|]. cbn [status_of_class]. closed_shape.
+    + intros H; injection H as <- <-. eexists; split; [reflexivity|]. cbn [status_of_class]. closed_shape.
+    + intros H; injection H as <- <-. eexists; split; [reflexivity|]. cbn [status_of_class]. closed_shape.
+  - intros H; inversion H; subst; clear H. eexists; split; [reflexivity|]. cbn [status_of_class].
+    eexists [_]. do 4 eexists. reflexivity.
+Qed.
+
+(* whatever happens, the Closed report never claims more than the wire carried: all the client's
+   bytes; to the target at most the payload that followed the address; from the target at most
+   what the target sent *)
+Lemma counters_le_wire_lemma e st ci st' evs s cp pt tp :
+  handle e st ci = (st', Ok evs) -> In (EClosed s cp pt tp) evs ->
+  cp = zlen (ci_bytes ci) /\ (0 <= pt)%Z /\ (0 <= tp <= zlen (ci_target_out ci))%Z /\
+  (forall id el salt, snd (authenticate e st (ci_ip ci) (ci_bytes ci)) = Ok (AuthOk id el salt) ->
+     (pt <= zlen (fst (decode_stream e (e_key (snd el)) (ci_bytes ci))))%Z) /\
+  (forall sa id, snd (authenticate e st (ci_ip ci) (ci_bytes ci)) = Ok (AuthErr sa id) -> pt = 0%Z /\ tp = 0%Z).
+Proof.
+  unfold handle. destruct (authenticate e st (ci_ip ci) (ci_bytes ci)) as [st1 res]. cbn [snd].
+  destruct res as [[id el salt|sa id]|]; [| |intros H; inversion H].
+  - unfold after_auth. destruct (decode_stream e (e_key (snd el)) (ci_bytes ci)) as [p f] eqn:DS.
+    assert (Z0 : forall {A} (l : list A), (0 <= zlen l)%Z) by (intros; unfold zlen; lia).
+    assert (Hp : forall ab payload, read_addr p = RAddr ab payload -> (zlen payload <= zlen p)%Z).
+    { intros ab payload R. unfold read_addr in R. destruct p as [|t r]; [discriminate|].
+      destruct ((t =? atyp_dom) || (t =? atyp_v4) || (t =? atyp_v6))%N; [|discriminate].
+      destruct (addr_len (t :: r)) as [n|]; [|discriminate].
+      destruct (length (t :: r) <? n)%nat; [discriminate|]. inversion R; subst.
+      unfold zlen. rewrite skipn_length. lia. }
+    destruct (read_addr p) as [ab payload| |] eqn:RA.
+    + specialize (Hp ab payload eq_refl).
+      destruct (decode_addr ab) as [a|].
+      * destruct (dial ci a) as [i|s0].
+        -- destruct f; intros H Hin; inversion H; subst; clear H; cbn in Hin;
+             repeat (destruct Hin as [Hin|Hin]; [try discriminate; inversion Hin; subst|]); try contradiction;
+             (split; [reflexivity|]; split; [apply Z0|]; split; [split; [apply Z0|lia]|]; split;
+              [intros ? ? ? E; inversion E; subst; rewrite DS; cbn [fst]; exact Hp | intros ? ? E; discriminate]).
+        -- intros H Hin; inversion H; subst; clear H; cbn in Hin.
+           repeat (destruct Hin as [Hin|Hin]; [try discriminate; inversion Hin; subst|]); try contradiction.
+           split; [reflexivity|]. split; [lia|]. split; [split; [lia|apply Z0]|]. split; [intros ? ? ? E; inversion E; subst; rewrite DS; cbn [fst]; apply Z0 | intros ? ? E; discriminate].
+      * intros H Hin; inversion H; subst; clear H; cbn in Hin.
+        repeat (destruct Hin as [Hin|Hin]; [try discriminate; inversion Hin; subst|]); try contradiction.
+        split; [reflexivity|]. split; [lia|]. split; [split; [lia|apply Z0]|]. split; [intros ? ? ? E; inversion E; subst; rewrite DS; cbn [fst]; apply Z0 | intros ? ? E; discriminate].
+    + intros H Hin; inversion H; subst; clear H; cbn in Hin.
+      repeat (destruct Hin as [Hin|Hin]; [try discriminate; inversion Hin; subst|]); try contradiction.
+      split; [reflexivity|]. split; [lia|]. split; [split; [lia|apply Z0]|]. split; [intros ? ? ? E; inversion E; subst; rewrite DS; cbn [fst]; apply Z0 | intros ? ? E; discriminate].
+    + intros H Hin; inversion H; subst; clear H; cbn in Hin.
+      repeat (destruct Hin as [Hin|Hin]; [try discriminate; inversion Hin; subst|]); try contradiction.
+      split; [reflexivity|]. split; [lia|]. split; [split; [lia|apply Z0]|]. split; [intros ? ? ? E; inversion E; subst; rewrite DS; cbn [fst]; apply Z0 | intros ? ? E; discriminate].
+  - intros H Hin; inversion H; subst; clear H; cbn in Hin.
+    assert (Z0 : forall {A} (l : list A), (0 <= zlen l)%Z) by (intros; unfold zlen; lia).
+    repeat (destruct Hin as [Hin|Hin]; [try discriminate; inversion Hin; subst|]); try contradiction.
+    split; [reflexivity|]. split; [lia|]. split; [split; [lia|apply Z0]|]. split; [intros ? ? ? E; discriminate | intros ? ? E; split; reflexivity].
+Qed.
